@@ -137,6 +137,13 @@ inductive Good : M St → Prop where
   | stop (st : St) (pre : List Req) (r : Req) :
       st.reqs = pre ++ [r] → AllOk pre → r.code ≠ 200 → Good (.error (st, stopOf r))
 
+theorem good_inv {m : M St} (h : Good m) :
+    (∃ st, m = .ok st ∧ AllOk st.reqs) ∨
+    (∃ st pre r, m = .error (st, stopOf r) ∧ st.reqs = pre ++ [r] ∧ AllOk pre ∧ r.code ≠ 200) := by
+  cases h with
+  | ok st h => exact Or.inl ⟨st, rfl, h⟩
+  | stop st pre r h1 h2 h3 => exact Or.inr ⟨st, pre, r, rfl, h1, h2, h3⟩
+
 theorem good_doReq (sub : Bool) (env : Env) (k : Kind) (pl : Payload) (st : St) (h : AllOk st.reqs) :
     Good (doReq sub env k pl st) := by
   have hk := (step_kind sub env k pl st.server).1
